@@ -75,6 +75,16 @@ def run(ctx):
     for n in ([2, 47, 48, 49, 64, 130] if quick else [2, 3, 7, 8, 9, 15, 16, 17, 31, 32, 33, 47, 48, 49, 63, 64, 65, 100, 127, 128, 129, 255, 256, 257, 400]):
         fams.append(("same-operator-run-%d" % n, [gen_expr.same_op_run(rng, op, n) for op in run_ops], True))
 
+    # layout around infix operators: the parse must not depend on where the blanks are (`a -b`, `a- b`, wide, operator on the next line)
+    for mode in ("signlike", "tightleft", "wide", "newline"):
+        trees = []
+        for i in range(30):
+            a, b, c = (("var", rng.choice(gen_expr.INT_VARS), "int") for _ in range(3))
+            op1, op2 = rng.choice(["+", "-", "*", "/", "%"]), rng.choice(["+", "-", "*"])
+            trees.append(("bin", op2, ("bin", op1, a, b), c))
+            trees.append(("bin", "-", ("call", "f2", [a, b], "int"), ("call", "h1", [c], "int")))
+            trees.append(("bin", rng.choice(["<", "==", ">="]), ("bin", "-", a, b), c))
+        fams.append(("spacing-%s" % mode, trees, True, mode))
     # volume: more than MAX_RECURSION_DEPTH small expressions with unparenthesised unary operators in one file - the
     # nesting guard counts nesting, so any per-file residue of it shows here (not in deep nesting)
     vol = []
@@ -90,9 +100,10 @@ def run(ctx):
     fams.append(("unary-volume", vol, True))
     with tempfile.TemporaryDirectory(prefix="nvc07", dir="/var/tmp") as td:
         jobs, texts = [], []
-        for name, trees, wt in fams:
+        for fam in fams:
+            name, trees, wt = fam[:3]
             for style in ("prefix", "infix"):
-                src = gen_expr.program(trees, style, bind=(len(trees) <= 200))
+                src = gen_expr.program(trees, style, bind=(len(trees) <= 200), spacing=(fam[3] if len(fam) > 3 else "normal"))
                 p = os.path.join(td, "%s-%s.nano" % (name, style))
                 open(p, "w").write(src)
                 jobs.append((tdir, p)); texts.append(src)
@@ -113,7 +124,8 @@ def run(ctx):
     nexpr = 0
     both_rejected = 0
     unsupported = 0
-    for k, (name, trees, wt) in enumerate(fams):
+    for k, fam in enumerate(fams):
+        name, trees, wt = fam[:3]
         rp, ri = res[2 * k], res[2 * k + 1]
         mp, mi = mout[2 * k], mout[2 * k + 1]
         outp = next(run_iter) if rp[0] == "ok" else None
